@@ -62,6 +62,7 @@ var c20URLs = []c20URLForm{
 	{Name: "https", URL: "https://trusted.com/start/a", Addr: "trusted.com:443", TLS: true},
 	{Name: "subdomain-initial", URL: "http://sub.trusted.com/start/a", Addr: "sub.trusted.com:80"},
 	{Name: "ipv6-initial", URL: "http://[::1]/start/a", Addr: "[::1]:80"},
+	{Name: "ipv6-zone-initial", URL: "http://[fe80::1%25eth0]/start/a", Addr: "[fe80::1%eth0]:80"},
 	{Name: "host-header", URL: "/start/a", Addr: "trusted.com:80", HostHeader: "trusted.com"},
 	{Name: "no-path-query", URL: "http://trusted.com?x=1", Addr: "trusted.com:80"},
 	{Name: "scheme-relative-initial", URL: "//trusted.com/start/a", Addr: "trusted.com:80"},
@@ -146,6 +147,14 @@ var c20Locs = []struct{ Name, Loc string }{
 	{"no-slashes", "http:evil.com/p"},
 	{"triple-slash", "///evil.com/p"},
 	{"empty-host", "http:///p"},
+	// Hosts that carry the marks of an IP literal (':' of an IPv6 address, '%' of an RFC 6874 zone identifier, which
+	// may hold almost any bytes) and whose text ends like the trusted host: addresses, never subdomains.  "%25" is
+	// escaped twice because the resolved URL has to survive the re-parse on the next hop (a single-escaped form ends
+	// the chain with a URL error before anything is sent).
+	{"ipv6-zone-suffix-init", "http://[fe80::1%2525.trusted.com]/p"},
+	{"ipv6-zone-suffix-init-upper-port", "http://[fe80::1%2525x.TRUSTED.com]:8080/p"},
+	{"ipv6-zone-plain", "http://[fe80::1%2525eth0]/p"},
+	{"pct2525-sub", "http://evil%2525.trusted.com/p"},
 }
 
 var c20Sensitive = []struct{ Name, Value string }{
@@ -346,15 +355,34 @@ func c20Trusted(h, init string) bool {
 	if h == init {
 		return true
 	}
+	if c20IPLiteralLike(h) {
+		// an IP literal (IPv6 address, with or without a zone identifier) names an address, not a DNS name: it is a
+		// subdomain of nothing, whatever its text ends with.
+		return false
+	}
 	return init != "" && strings.HasSuffix(h, "."+init)
 }
+
+// c20IPLiteralLike: h (brackets already dropped by c20HostOnly) cannot be a DNS name because it carries the marks of an
+// IP literal: ':' (IPv6), '%' (zone identifier) or a stray bracket.
+func c20IPLiteralLike(h string) bool { return strings.ContainsAny(h, ":%[]") }
 
 func c20HostClass(h, init string) string {
 	switch {
 	case h == "":
 		return "empty-host"
+	case strings.Contains(h, "%") && strings.Contains(h, ":"):
+		if init != "" && strings.HasSuffix(h, "."+init) {
+			return "ip6-zone-host-ending-like-initial"
+		}
+		return "ip6-zone-host"
 	case strings.Contains(h, "%"):
+		if init != "" && strings.HasSuffix(h, "."+init) {
+			return "percent-host-ending-like-initial"
+		}
 		return "percent-host"
+	case strings.Contains(h, ":") && init != "" && strings.HasSuffix(h, "."+init):
+		return "ip6-host-ending-like-initial"
 	case strings.Contains(h, ":"):
 		return "ip6-host"
 	case strings.ContainsAny(h, "@\\/?# "):
@@ -970,8 +998,9 @@ func TestVerif_C20(t *testing.T) {
 		names = append(names, s.name)
 	}
 	r.Rule("redirect chains over a fake multi-host network behind Client.Dial/HostClient.Dial (synchronous scripted in-memory conns; every host logs dialled address + every request). " +
+		"Location forms include IPv6 literals with RFC 6874 zone identifiers (plain, and with a zone that ends like the initial host, with port/case variation) and a %-carrying reg-name that ends like the initial host; initial URL forms include an IPv6 literal with and without zone. " +
 		"Enumerated spaces, each completely: " + strings.Join(names, " || ") + ". " +
-		"Oracle from the hosts' logs after the call returned: a request to a host (dialled address and Host header; lower-cased, port, brackets and root dot dropped) that is neither the first request's host nor a subdomain of it carries none of the caller's Authorization/Cookie/Cookie2/Proxy-Authorization/Proxy-Authenticate/WWW-Authenticate values; " +
+		"Oracle from the hosts' logs after the call returned: a request to a host (dialled address and Host header; lower-cased, port, brackets and root dot dropped) that is neither the first request's host nor a subdomain of it (a host with the marks of an IP literal - ':' of an IPv6 address, '%' of a zone identifier - is an address and a subdomain of nothing, even when its text ends in '.'+initial host) carries none of the caller's Authorization/Cookie/Cookie2/Proxy-Authorization/Proxy-Authenticate/WWW-Authenticate values; " +
 		"redirects followed <= max (16 for Get/Post) and ErrTooManyRedirects when the limit is hit; after 303 the next request is GET (HEAD after HEAD) without body/Content-Length/Transfer-Encoding/Trailer/Content-Type; POST->GET after 301/302; 307/308 keep method and buffered body. " +
 		"Non-trivial: the chain reached an untrusted host, hit the limit, or had a 303 / POST-301/302 rewrite checked")
 	r.Assume("net/http.ReadRequest as the fake hosts' request parser (chains with bytes it cannot parse are counted; their parsed request heads are judged for credentials only)",
